@@ -1,0 +1,17 @@
+// SPDX-FileCopyrightText: 2022-present Intel Corporation
+//
+// SPDX-License-Identifier: Apache-2.0
+
+//go:build verif
+
+// Contracts for the deductive verifier in /verif (govc). Comment-only: this file contains no code
+// and is excluded from every build that does not set the "verif" tag.
+
+package values
+
+// the v3 copy of the southbound change builder: frame and shape of the result only (trusted, as the v2 copy)
+//@ func PathValuesToGnmiChange(values, target) (req, err)
+//@   trusted
+//@   modifies nothing
+//@   ensures err != nil ==> req == nil
+//@   ensures err == nil ==> req != nil && fresh(req) && len(req.Extension) == 0 && req.Prefix != nil && fresh(req.Prefix) && req.Prefix.Target == target
